@@ -440,7 +440,8 @@ def cli_components(ctx, image, mimpath, flood, seed):
                 warnings.catch_warnings():
             warnings.simplefilter('ignore')
             rc = aegean.main([image, '--region', mimpath, '--table', out, '--forcerms', '1', '--forcebkg', '0',
-                              '--cores', '1', '--seedclip', repr(seed), '--floodclip', repr(flood)])
+                              '--cores', '1', '--seedclip', repr(seed), '--floodclip', repr(flood),
+                              '--negative'])     # the CLI drops negative sources unless asked
     finally:
         root.handlers[:] = handlers
         root.setLevel(level)
